@@ -185,7 +185,8 @@ impl<'a> HexStringLexer<'a> {
 
     fn next_non_whitespace_char(&mut self) -> Result<u8> {
         let mut byte = self.read_byte()?;
-        while byte == b' ' || byte == b'\t' || byte == b'\n' || byte == b'\r' || byte == b'\x0c' {
+        // the white-space characters of ISO 32000-1 Table 1 (which include NUL)
+        while byte == b' ' || byte == b'\t' || byte == b'\n' || byte == b'\r' || byte == b'\x0c' || byte == b'\0' {
             byte = self.read_byte()?;
         }
         Ok(byte)
